@@ -228,7 +228,16 @@ def monFut (id : String) (decls : List FnDecl) (userD builtD : Dag) (a : DAcc) (
   | ["ev", _, "handout", f] =>
     let f := f.toNat?.getD 0
     let before := m.s.handedOut.length
-    let (s', ok) := advanceUntil c (fun s => decide (before < s.handedOut.length)) fuel m.s
+    -- Under tokio's cooperative budget a done notification (`fn_done_send*().await`) can be deferred
+    -- behind that of a function that completed later, so the ready queue order is the order of the
+    -- SENDS, which the harness cannot see.  In coop sessions the monitor therefore follows the real
+    -- hand-out order among the functions that are ready in the model (same set, any order); the FIFO
+    -- order itself is pinned by the non-coop sessions.
+    let s0 := if m.coop then
+        let (sq, _) := advanceUntil c (fun s => s.doneQ.isEmpty || s.qDone) fuel m.s
+        if f ∈ sq.readyQ then { sq with readyQ := f :: sq.readyQ.erase f } else sq
+      else m.s
+    let (s', ok) := advanceUntil c (fun s => decide (before < s.handedOut.length)) fuel s0
     let got := if ok then natsText (s'.handedOut.drop before) else "none-enabled"
     let a := a.cmp id "R-step" wh got (toString f)
     -- C03 (real): no second hand-out; C10 (real)
@@ -293,7 +302,7 @@ def monFut (id : String) (decls : List FnDecl) (userD builtD : Dag) (a : DAcc) (
     let a := if !m.realFailed.isEmpty then a.prop id "C07" (wh ++ " never returns after a failure") (!dead) else a
     let a := if m.intrAt.isSome then a.prop id "C08" (wh ++ " never returns after the interrupt") (!dead) else a
     let a := match c.limit with
-      | some (l+1) => if cleanRun && !c.sequential then a.prop id "C10" (wh ++ s!" limit {l+1} blocks completion") (!dead) else a
+      | some (l+1) => if m.intrAt.isNone && !c.sequential then a.prop id "C10" (wh ++ s!" limit {l+1} blocks completion") (!dead) else a
       | _ => a
     -- C06 (real): no limit / interrupt / failure: every function whose built-graph predecessors
     -- have all returned has been started
@@ -559,6 +568,10 @@ def checkCase (lines : Array String) : Array String := Id.run do
         a := a.prop id "C16" "pairs unique" (simpleB ⟨decls.length, userE⟩)
       let realG : Dag := ⟨bo.n, bo.edges⟩
       let userG : Dag := ⟨decls.length, userE⟩
+      -- C16 "the most recently given kind wins" / "leave those edges intact": the accepted edges,
+      -- replayed from the builder's own answers with the kind of the LAST call per pair, are the
+      -- prefix of the built graph's edge list
+      a := a.prop id "C16" "accepted edges with most recent kinds are in the built graph" (bo.edges.take userE.length == userE)
       -- the two quadratic-in-path-queries predicates are skipped on the large growth-series graphs
       -- (C18 cases); every other case is far below the threshold
       if bo.n ≤ 34 then
